@@ -408,7 +408,7 @@ def check(ctx):
             ctx.guard('R7/driver', fsite(d), lambda d=d, name=name: C12.driver_shape(Proxy(ctx, 'R7/C12.'), d, name))
     share(ctx, 'C19', 'R6/C19.', ['R4.'])
     from . import C10
-    share(ctx, 'C10', 'R2/C10.', ['R1.', 'R2.', 'R3.'])
+    share(ctx, 'C10', 'R2/C10.', ['R1.', 'R2.', 'R3.', 'R5.'])
     share(ctx, 'C12', 'R4/C12.', ['R4.mpi_same_decision'])
 
 
